@@ -9,8 +9,7 @@
         parent not full : X5 new border's parent / X6 P.inserting / XKey XChS XCh XN / X9 unlock P
         parent full     : IS1 P.splitting / IS2 P' := copy of P's version (private) / ISKeys upper keys move to P' / ISN P.n := F div 2 /
                           per moved child ISChPar (child.parent := P') ISChClr (P.ch[i] := NULL) / ISPiv middle key cleared /
-                          ISPar new border's parent := the half it belongs to / ISIns insert into that half (one step; P' is private,
-                          P is dirty: readers validate) / lock_parent(P): no parent -> root lock (ISRl ISRl2) / ISR1 ISR2 root flags off +
+                          ISPar new border's parent := the half it belongs to / insert into that half (into P: X6 XKey XChS XCh XN; into the private P': ISIns, one step) / lock_parent(P): no parent -> root lock (ISRl ISRl2) / ISR1 ISR2 root flags off +
                           new root built privately / ISR3 ISR4 parent pointers of P and P' / ISU1 unlock P / ISU2 unlock P' /
                           ISRs root pointer := new root / ISU3 unlock new root / ISRu root unlock
      get               : G0 FB GC1..GC4 LV1 PermLd LV2 GVal GFc as in YkConc4 (torn reads of a dirty interior are over-approximated)
@@ -41,7 +40,7 @@ MkBorder(S, pv, nx) == LET n == Cardinality(S) sq == SeqOf(S) IN
                    !.lv = [s \in Slots |-> IF s < n THEN 100 + sq[s + 1] ELSE 0], !.prev = pv, !.next = nx, !.parent = 101]
 EmptyI == [ver |-> V0, n |-> 0, key |-> [i \in 0..(F-1) |-> 0], ch |-> [i \in 0..F |-> NULL], parent |-> NULL]
 L0 == [root |-> 101, cur |-> 101, pv |-> V0, ci |-> 0, child |-> 1, cv |-> V0, b |-> 1, vfb |-> V0, v |-> V0, idx |-> NoSlot, w |-> 0,
-       pn |-> NULL, i |-> 0, side |-> NULL, mv |-> 1, nb |-> NULL, ni |-> NULL, nr |-> NULL, piv |-> 0, tgt |-> NULL]
+       pn |-> NULL, i |-> 0, side |-> NULL, mv |-> 1, nb |-> NULL, ni |-> NULL, nr |-> NULL, piv |-> 0, tgt |-> NULL, isp |-> FALSE]
 NC == F + 1
 Init == /\ bd = Force([n \in Borders |-> IF n <= NC THEN MkBorder(InitB[n], IF n = 1 THEN NULL ELSE n - 1, IF n = NC THEN NULL ELSE n + 1) ELSE EmptyB])
         /\ it = Force([n \in Interiors |-> IF n = 101 THEN [EmptyI EXCEPT !.ver = [V0 EXCEPT !.root = TRUE, !.vi = F], !.n = F,
@@ -185,7 +184,7 @@ XChS(t) == /\ pc[t] = "xchs" /\ LET p == loc[t].pn j == loc[t].mv IN
               /\ IF j - 1 = loc[t].i + 1 THEN Goto(t, "xch") /\ UNCHANGED loc ELSE loc' = [loc EXCEPT ![t].mv = j - 1] /\ UNCHANGED pc
            /\ UNCHANGED <<bd, UA, UR, abs, seen, res>>
 XCh(t) == /\ pc[t] = "xch" /\ it' = [it EXCEPT ![loc[t].pn].ch[loc[t].i + 1] = loc[t].nb] /\ Goto(t, "xn") /\ UNCHANGED <<bd, UA, UR, loc, abs, seen, res>>
-XN(t) == /\ pc[t] = "xn" /\ it' = [it EXCEPT ![loc[t].pn].n = @ + 1] /\ Goto(t, "x9") /\ UNCHANGED <<bd, UA, UR, loc, abs, seen, res>>
+XN(t) == /\ pc[t] = "xn" /\ it' = [it EXCEPT ![loc[t].pn].n = @ + 1] /\ Goto(t, IF loc[t].isp THEN "isrl" ELSE "x9") /\ UNCHANGED <<bd, UA, UR, loc, abs, seen, res>>
 X9(t) == /\ pc[t] = "x9" /\ SetIV(loc[t].pn, Unl(it[loc[t].pn].ver)) /\ Ret(t, <<"OK", 0>>) /\ UNCHANGED <<bd, UA, UR, loc, abs, seen>>
 \* parent full: interior_split(P, new border, its first key); P is the tree root in this model
 IS1(t) == /\ pc[t] = "is1" /\ SetIV(loc[t].pn, [it[loc[t].pn].ver EXCEPT !.spl = ~NO_SPLIT_MARK]) /\ Goto(t, "is2") /\ UNCHANGED <<bd, UA, UR, loc, abs, seen, res>>
@@ -208,8 +207,10 @@ ISPiv(t) == /\ pc[t] = "ispiv" /\ LET p == loc[t].pn IN
                /\ loc' = [loc EXCEPT ![t].piv = it[p].key[Pos], ![t].tgt = IF bd[loc[t].nb].ks[0] < it[p].key[Pos] THEN p ELSE loc[t].ni]
                /\ it' = [it EXCEPT ![p].key[Pos] = 0]
             /\ Goto(t, "ispar") /\ UNCHANGED <<bd, UA, UR, abs, seen, res>>
-ISPar(t) == /\ pc[t] = "ispar" /\ bd' = [bd EXCEPT ![loc[t].nb].parent = loc[t].tgt] /\ Goto(t, "isins") /\ UNCHANGED <<it, UA, UR, loc, abs, seen, res>>
-\* interior insert into the chosen half (P is locked and dirty, P' is private): one step
+\* the new border goes into the half it belongs to: into P by the ordinary interior insert (X6 XKey XChS XCh XN: P is visible), into P' in one
+\* step (nobody can read P' before it is unlocked)
+ISPar(t) == /\ pc[t] = "ispar" /\ bd' = [bd EXCEPT ![loc[t].nb].parent = loc[t].tgt] /\ loc' = [loc EXCEPT ![t].isp = TRUE]
+            /\ Goto(t, IF loc[t].tgt = loc[t].pn THEN "x6" ELSE "isins") /\ UNCHANGED <<it, UA, UR, abs, seen, res>>
 ISIns(t) == /\ pc[t] = "isins" /\ LET g == loc[t].tgt k == bd[loc[t].nb].ks[0] i == ChildIdx(g, k) IN
                it' = [it EXCEPT ![g].key = [j \in 0..(F-1) |-> IF j < i THEN it[g].key[j] ELSE IF j = i THEN k ELSE it[g].key[j - 1]],
                                 ![g].ch = [j \in 0..F |-> IF j <= i THEN it[g].ch[j] ELSE IF j = i + 1 THEN loc[t].nb ELSE it[g].ch[j - 1]],
